@@ -981,7 +981,8 @@ class Terminal:
                 coecmd, sdocmd, idx, subidx = unpack("<HBHB", response[:6])
                 if coecmd >> 12 != CoECmd.SDORES.value:
                     raise EtherCatError(f"expected CoE SDORES, got {coecmd>>12:x}")
-                if idx != index or subindex != subidx:
+                if idx != index or subidx != (1 if subindex is None
+                                              else subindex):
                     raise EtherCatError(f"requested index {index}, got {idx}")
                 toggle = 0
                 while stop < len(data):
@@ -1004,7 +1005,8 @@ class Terminal:
                         coecmd, sdocmd, idx, subidx = unpack("<HBHB", response[:6])
                         if coecmd >> 12 != CoECmd.SDORES.value:
                             raise EtherCatError(f"expected CoE SDORES")
-                        if idx != index or subindex != subidx:
+                        if idx != index or subidx != (1 if subindex is None
+                                                      else subindex):
                             raise EtherCatError(f"requested index {index}")
                     toggle ^= 0x10
 
